@@ -5,6 +5,7 @@ mod checks;
 mod driver;
 mod endpoint;
 mod prng;
+mod refmodel;
 mod scenario;
 mod scenarios;
 mod sim;
